@@ -19,12 +19,16 @@ import (
 //
 // The ops that create or select documents (conversion, render, reopen, swap) are kept in any case, so that the
 // family has the same shape and the selectors of the swaps mean the same documents in both runs.
+//
+// Conversions with the run's shared converter (mdc, converter.go) that made a document OUTSIDE the lineage are calls
+// that create another document: they are kept as conversions, but with a converter of their own (plain "md"), so
+// that in the projection the shared converter has seen only the texts of the lineage.
 
 // derivingKinds: the new document is made from the current one
 var derivingKinds = map[string]bool{"tpldoc": true, "tpldoc2": true, "reopen": true}
 
 // navKinds are never removed by the projection
-var navKinds = map[string]bool{"tpldoc": true, "tpldoc2": true, "reopen": true, "tplstr": true, "md": true, "swap": true}
+var navKinds = map[string]bool{"tpldoc": true, "tpldoc2": true, "reopen": true, "tplstr": true, "md": true, "swap": true, "openforeign": true, "mdc": true}
 
 type birth struct {
 	parent *document.Document // nil: made from nothing (New, conversion, string template)
@@ -78,7 +82,14 @@ func (r *docRun) projection(history []ops.Op) []ops.Op {
 		}
 		cur, limit = b.parent, b.at
 	}
+	made := map[int]bool{} // ops that made a document of the lineage
+	for _, l := range chain {
+		if b, ok := r.born[l.doc]; ok {
+			made[b.at] = true
+		}
+	}
 	var out []ops.Op
+	changed := false
 	for j, o := range history {
 		keep := navKinds[o.K]
 		for _, l := range chain {
@@ -87,10 +98,14 @@ func (r *docRun) projection(history []ops.Op) []ops.Op {
 			}
 		}
 		if keep {
+			if o.K == "mdc" && !made[j] {
+				o = asPlainMD(o)
+				changed = true
+			}
 			out = append(out, o)
 		}
 	}
-	if len(out) == len(history) {
+	if len(out) == len(history) && !changed {
 		return nil
 	}
 	return out
